@@ -68,3 +68,6 @@ def run(ctx):
         jobrules.no_panicking_instant_arith(ctx, "R07.10")
     except Skip:
         pass
+
+    ctx.rule("R07.11", "each public Job method sends the documented controls at the documented priority: delete_now()'s Delete travels on the urgent queue, so it is read while a grace timer is armed")
+    ctx.borrow("C10", ["R10.3"], "R07.11", "API priority table")
